@@ -97,7 +97,7 @@ pub fn grid(full: bool) -> Vec<BigUint> {
     let ks: Vec<u32> = if full {
         (8..=254).collect()
     } else {
-        vec![8, 16, 31, 32, 33, 63, 64, 65, 127, 128, 129, 191, 192, 193, 252, 253, 254]
+        (8..=254).filter(|k| k % 8 == 0 || [31, 33, 63, 65, 127, 129, 191, 193, 252, 253, 254].contains(k)).collect()
     };
     for k in ks {
         for d in [-1i32, 0, 1] {
